@@ -197,7 +197,9 @@ def formatGeneralCore (precision bits : Nat) (upper alt alwaysShowsFract : Bool)
       let precision' := ((precision : Int) - 1 - exponent).toNat
       let magnitude := formatFixed precision' bits upper false
       let base := maybeRemoveTrailingRedundantChars magnitude alt
-      base ++ decimalPointOrEmpty precision' alt
+      -- 6610c77: like repr, the no-type presentation keeps ".0" on an integral result
+      let dotZero := if alwaysShowsFract ∧ !base.contains 46 then [46, 48] else []
+      base ++ decimalPointOrEmpty precision' alt ++ dotZero
   else if isNan bits then formatNan upper
   else formatInf upper
 
